@@ -268,9 +268,10 @@ void run_c04(sim::RunCtx& ctx) {
             uint32_t w = r.below(14);
             if (w < 11 && r.below(3) == 0) { lie.path = PATHS[w]; lie.relative = true; static const int64_t D[] = {1, -1, 2, -2, 3, 4, 7, 8, 16, 31, 64, 100, 255, -8, 1000, -1000}; lie.value = D[r.below(16)]; }
             else if (w < 11) { lie.path = PATHS[w]; lie.value = boundary_value(r, 8, img.size(), img.size()); if (w < 4 || r.below(2)) lie.value = (int32_t)lie.value; if (lie.path.size() == 1 && lie.path[0] == 1) lie.value = (int64_t)r.below(5); if (lie.path == std::vector<int>{5, 2}) lie.value = (int64_t)r.below(12); }
+            else if (r.below(6) == 0) { lie.body_kind = 4; static const int64_t Z[] = {9, 300, 5000, 70000, 400000}; lie.value = Z[r.below(5)]; }
             else { lie.body_kind = (int)(w - 10); lie.value = lie.body_kind == 1 ? (int64_t)r.below(256) : boundary_value(r, 4, img.size(), img.size()); }
             L.lies.push_back(lie);
-            what += sim::fmt(" lie(chunk%zu page%d %s=%lld)", lie.chunk, lie.page, lie.body_kind ? (lie.body_kind == 1 ? "bit_width" : lie.body_kind == 2 ? "def_len" : "rep_len") : sim::fmt("path%d%s", lie.path[0], lie.path.size() > 1 ? sim::fmt(".%d", lie.path[1]).c_str() : "").c_str(), (long long)lie.value);
+            what += sim::fmt(" lie(chunk%zu page%d %s=%lld)", lie.chunk, lie.page, lie.body_kind ? (lie.body_kind == 1 ? "bit_width" : lie.body_kind == 2 ? "def_len" : lie.body_kind == 3 ? "rep_len" : "zero_bytes") : sim::fmt("path%d%s", lie.path[0], lie.path.size() > 1 ? sim::fmt(".%d", lie.path[1]).c_str() : "").c_str(), (long long)lie.value);
         }
         // near-miss sizes: a page (or its declared uncompressed size) that ends a little before / exactly at / a little past the
         // end of the file needs the real offsets, so emit once without lies to learn them
